@@ -60,12 +60,12 @@ CLAIMED = {
          "DESIGN.md 5/C20"),
 
  "C09": ("HTTPSIM", "exploration",
-         "property-based testing through four entry points (Commander, v2, v1, bulk) over a real Commander and the model store; exact-equality oracle on answer and persisted entry, no-trace oracle on rejection",
+         "property-based testing through four entry points (Commander, v2, v1, bulk) over a real Commander and the model store; exact-equality oracle on answer and persisted entry, no-trace oracle on rejection; plus a parallel stress family (real goroutines submitting lists of different shapes together; invariant oracle, schedule not owned)",
          "Generated posting lists (full address/asset grammar, repeated accounts and monetaries, chains, 0 and >64-bit amounts, metadata, reference, timestamps, invalid variants) are submitted for real; a success must commit exactly the request, a rejection must leave nothing.",
          "Trusted: model store in place of PostgreSQL; sequential requests. One known finding listed (zero instant taken as 'no timestamp').",
          "DESIGN.md 5/C09"),
  "C17": ("SQLREC", "exploration",
-         "model-based property testing of pagination over a mini SQL engine: generated collections / page sizes / orders / filters walked through bunpaginate, ledgerstore and the HTTP handlers; enumeration, previous-page and filter-preservation oracles",
+         "model-based property testing of pagination over a mini SQL engine: generated collections / page sizes / orders / filters walked through bunpaginate, ledgerstore and the HTTP handlers; enumeration, previous-page and filter-preservation oracles; plus a round-trip family on the tokens themselves (generated queries of every list: the token decodes into the query it was made from, expansions and filters included)",
          "Generated collections are served by a mini SQL engine behind the real bun/ledgerstore/handler code; following next must enumerate the filtered collection exactly once in order, previous must give the page before, and every statement of a walk must carry the first request's filter.",
          "Trusted: the mini engine's reading of WHERE conjuncts / ORDER BY / LIMIT / OFFSET (unknown statement shapes abort the case as a harness error).",
          "DESIGN.md 5/C17"),
@@ -81,7 +81,7 @@ CLAIMED = {
          "Trusted: model store; crash = goroutines stop at their next gate and un-inserted batches vanish; storeform emulation for the read-back recomputation.",
          "DESIGN.md 5/C05"),
  "C06": ("ENGINE-SIM", "fault_enumeration",
-         "per generated history, exhaustive enumeration of every crash position and every single InsertLogs failure (1 case in 20); per generated batch, exhaustive enumeration of every failing driver-level step (begin, prepare, row, flush, close, commit) of the real ledgerstore.Store.InsertLogs over a recording SQL driver (1 in 25); plus sampled single runs with crash points, a store fault, failing reads and cancellations drawn with the plan (19 in 20); bijection oracle between success responses and persisted entries",
+         "per generated history, exhaustive enumeration of every crash position and every single InsertLogs failure (1 case in 20); a bulk-over-real-engine family shared with C18 (1 in 25); per generated batch, exhaustive enumeration of every failing driver-level step (begin, prepare, row, flush, close, commit) of the real ledgerstore.Store.InsertLogs over a recording SQL driver (1 in 25); plus sampled single runs with crash points, a store fault, failing reads and cancellations drawn with the plan (19 in 20); bijection oracle between success responses and persisted entries",
          "For each generated history and schedule the check re-runs it once per scheduler step with the process dying there, and once per InsertLogs call failing: exhaustive over single crash points / single store faults of that history; histories themselves are sampled.",
          "Trusted: model store; the crash model (see DESIGN.md 4.2); attribution of entries to requests through request-chosen tags.",
          "DESIGN.md 5/C06"),
